@@ -122,7 +122,8 @@ let check_failure ~(out : coq_N list) ~(cls : string) ~(must_respond : bool) ~(s
       else if e.er_text <> stext e.er_code @ [byte_tab.(32)] then Some "status text"
       else if not (starts_with cfg_hdr e.er_extra) then Some "caller's extra headers missing from the error response"
       else if code = 426 && not (is_infix (bytes_of_string "Sec-WebSocket-Version: 13\r\n") e.er_extra)
-        && not (List.mem 426 (List.filter (fun c -> c <> 426) allowed_codes)) && false then Some "426"
+        && List.length (List.filter (fun c -> c = 426) allowed_codes) = 1   (* no callback chose 426 itself *)
+      then Some "426 without Sec-WebSocket-Version: 13"
       else None
 
 let rej_code (r : HsHttp.rej) = let c = int_of_n r.HsHttp.rj_code in if c = 0 then 500 else c
